@@ -73,6 +73,7 @@ structure St (κ : Type) where
   touched  : Task → Bool                         -- ghost: add/remove on a task whose finally is running
   leaked   : Task → Bool                         -- ghost: the finally was left without the clean-up
   cbRaised : Task → Bool                         -- ghost: one of its callbacks raised
+  stillborn : Task → Bool                        -- ghost: cancelled before its first segment: `run_coro` never ran
   bailed   : Task → Option Res                   -- ghost: an exception (CancelledError inside a callback /
                                                  --   RuntimeError of the dict iterator) left the callback loop
   errs     : Nat                                 -- ghost: number of KeyError/TypeError raised by the API calls
@@ -131,7 +132,7 @@ def init : St κ :=
     outcome := fun _ => none, idx := fun _ => 0, iterSize := fun _ => 0, loopDone := fun _ => false,
     inCb := fun _ => false,
     result := fun _ => none, ran := [], atEnd := fun _ => [], touched := fun _ => false, leaked := fun _ => false,
-    cbRaised := fun _ => false, bailed := fun _ => none, errs := 0 }
+    cbRaised := fun _ => false, stillborn := fun _ => false, bailed := fun _ => none, errs := 0 }
 
 /-- `task_done_callback_ctx`: create the entry unless there is one -/
 def ensureEntry (cb : Task → Option (List (Cb × Args))) (t : Task) : Task → Option (List (Cb × Args)) :=
@@ -149,9 +150,20 @@ def createStep (cfg : Cfg) (s : St κ) (t : Task) (wc pre : Bool) : St κ :=
 /-- the task an `@service` call creates (`pyscript_service_handler` / `ServiceDecorator`) -/
 def createService (cfg : Cfg) (s : St κ) (t : Task) : St κ := createStep cfg s t cfg.svcCtx false
 
+/-- `Task.cancel()` was called on a task that has not run yet: its first step throws `CancelledError` into the
+coroutine before any statement of `run_coro` has executed, so neither its `try` nor its `finally` runs.  The asyncio
+done-callback installed by `create_task` discards the task from `our_tasks`; the `task2cb` entry made by
+`task_done_callback_ctx` right after `create_task` stays for ever and the callbacks registered in it never run. -/
+def killUnstarted (s : St κ) (t : Task) : St κ :=
+  { s with phase := upd s.phase t .done, result := upd s.result t (some .cancelled),
+           leaked := upd s.leaked t true, stillborn := upd s.stillborn t true,
+           bailed := upd s.bailed t (some .cancelled), atEnd := upd s.atEnd t ((s.cb t).getD []),
+           idx := upd s.idx t 0, u := { s.u with ours := upd s.u.ours t false } }
+
 /-- first segment of `run_coro`: `our_tasks.add(task)`, `task_done_callback_ctx` when an ast_ctx was given -/
 def startStep (s : St κ) (t : Task) : St κ :=
   if s.phase t ≠ .created then s else
+  if s.u.cancelReq t then killUnstarted s t else
   { s with phase := upd s.phase t .running, u := C13.spawnStep s.u t false,
            cb := if s.withCtx t then ensureEntry s.cb t else s.cb }
 
@@ -279,12 +291,15 @@ def headUnstarted (s : St κ) : Bool :=
   | h :: _ => s.phase h == .created
   | [] => false
 
-/-- one reaper iteration.  A cancel command for a task that was only just created is not delivered before that task's
-first segment: the task was put on the event loop's ready queue when it was created, i.e. before the `put_nowait` that
-wakes the reaper (asyncio runs ready callbacks first in, first out – runtime assumption, checked on every observed
-trace). -/
+/-- `cancel()` of a task that has not run yet: remembered by the task (`_must_cancel`) -/
+def markUnstarted (s : St κ) : St κ :=
+  match s.u.reaperQ with
+  | h :: q => { s with u := { s.u with reaperQ := q, cancelReq := upd s.u.cancelReq h true, reaping := none } }
+  | [] => s
+
+/-- one reaper iteration -/
 def reapStep (cfg : Cfg) (s : St κ) : St κ :=
-  if headUnstarted s then s else { s with u := C13.reapStepCfg (!cfg.reaperDetached) s.u }
+  if headUnstarted s then markUnstarted s else { s with u := C13.reapStepCfg (!cfg.reaperDetached) s.u }
 
 def step (cfg : Cfg) (s : St κ) : Op κ → St κ
   | .create t wc pre => createStep cfg s t wc pre
